@@ -134,6 +134,7 @@ def _hoelder_pair(r, n, m):
 def _random_config(r, viol, stats, counts):
     n, m = oc.gen_nm(r, 50, 1, ns=(2, 3, 4, 5, 6, 7))
     lo, hi = oc.gen_box(r, n)
+    m = oc.common.cap_density(lo, hi, m)
     ev = oc.mk_ev(lo, hi, n, m)
     g = oc.Grid(lo, hi, m)
     ctx = {"mode": "random", "N": n, "m": m, "lower": lo, "upper": hi}
